@@ -39,11 +39,10 @@ TEMPLATES = {
     "inv_len_cats": ["div", "L:length", ["mul", "L:depth", "L:depth"]],
     # a unit with an OFFSET in the denominator: only its scale counts under an exponent
     "len_per_temp": ["div", "L", "K"],
-    "len_per_temp2": ["div", "L", ["mul", "K", "K"]],
 }
 # groups of templates with equal dimensions (operands of a + / - may come from different members)
 EQUAL_DIMS = [["lt", "tl"], ["vel", "vel_b"], ["area", "pow_area", "area_cats"], ["vol", "vol_r", "pow_vol"], ["len", "len_mix", "len_cancel", "len_cats_div"], ["lm_t", "lm_t_b"], ["vel", "vel_cancel"], ["area", "area_cancel"]]
-QUICK = ["len", "time", "area", "vel", "freq", "area_cats", "len_mix", "mom", "pow_area", "vol", "lt", "tl", "vel_b", "len_cancel", "vel_cancel", "area_cancel", "len_cats_div", "inv_len_cats", "len_per_temp", "len_per_temp2"]
+QUICK = ["len", "time", "area", "vel", "freq", "area_cats", "len_mix", "mom", "pow_area", "vol", "lt", "tl", "vel_b", "len_cancel", "vel_cancel", "area_cancel", "len_cats_div", "inv_len_cats", "len_per_temp"]
 THOROUGH = list(TEMPLATES)
 
 
